@@ -77,4 +77,283 @@ theorem roundAt_down (p q : Nat) (e : Int) (h : ¬ (52 - e ≥ 0)) :
     roundAt p q e = ⟨sig p (q * 2 ^ (-(52 - e)).toNat) * 2 ^ (-(52 - e)).toNat, 1⟩ := by
   simp only [roundAt, sig, h, if_false]
 
+theorem two52_eq : (4503599627370496 : Nat) = 2 ^ 52 := by decide
+
+theorem roundAt_near (p q : Nat) (e : Int) (hq : 0 < q) (hge : geExp p q e = true) :
+    Near (roundAt p q e) p q := by
+  by_cases h : 52 - e ≥ 0
+  · rw [roundAt_up p q e h]
+    apply near_up p q _ hq
+    by_cases he : e ≥ 0
+    · have hA : q * 2 ^ e.toNat ≤ p := by simpa [geExp, he] using hge
+      have hs : e.toNat + (52 - e).toNat = 52 := by omega
+      generalize e.toNat = a at hA hs
+      generalize (52 - e).toNat = s at hs
+      have : q * 2 ^ a * 2 ^ s ≤ p * 2 ^ s := Nat.mul_le_mul_right _ hA
+      rw [Nat.mul_assoc, ← Nat.pow_add, hs] at this
+      rw [two52_eq, Nat.mul_comm]; exact this
+    · have hA : q ≤ p * 2 ^ (-e).toNat := by simpa [geExp, he] using hge
+      have hs : (52 - e).toNat = (-e).toNat + 52 := by omega
+      rw [hs]
+      generalize (-e).toNat = b at hA
+      have : q * 2 ^ 52 ≤ p * 2 ^ b * 2 ^ 52 := Nat.mul_le_mul_right _ hA
+      rw [Nat.mul_assoc, ← Nat.pow_add] at this
+      rw [two52_eq, Nat.mul_comm]; exact this
+  · rw [roundAt_down p q e h]
+    apply near_down p q _ hq
+    have he : e ≥ 0 := by omega
+    have hA : q * 2 ^ e.toNat ≤ p := by simpa [geExp, he] using hge
+    have hs : e.toNat = 52 + (-(52 - e)).toNat := by omega
+    rw [hs] at hA
+    generalize (-(52 - e)).toNat = s at hA
+    rw [Nat.pow_add, ← Nat.mul_assoc] at hA
+    rw [two52_eq]
+    calc 2 ^ 52 * (q * 2 ^ s) = q * 2 ^ 52 * 2 ^ s := by
+          rw [← Nat.mul_assoc, Nat.mul_comm (2 ^ 52) q]
+      _ ≤ p := hA
+
+
+theorem expo_ge (p q : Nat) (hp : 0 < p) : geExp p q (expo p q) = true := by
+  unfold expo
+  simp only []
+  by_cases hk : geExp p q ((p.log2 : Int) - (q.log2 : Int)) = true
+  · rw [if_pos hk]; exact hk
+  · rw [if_neg hk]
+    have h1 : 2 ^ p.log2 ≤ p := Nat.log2_self_le (by omega)
+    have h2 : q < 2 ^ (q.log2 + 1) := Nat.lt_log2_self
+    generalize p.log2 = lp at *
+    generalize q.log2 = lq at *
+    unfold geExp
+    by_cases hs : (lp : Int) - (lq : Int) - 1 ≥ 0
+    · rw [if_pos hs]
+      have ht : lq + 1 + ((lp : Int) - (lq : Int) - 1).toNat = lp := by omega
+      generalize ((lp : Int) - (lq : Int) - 1).toNat = t at ht
+      have : q * 2 ^ t ≤ 2 ^ (lq + 1) * 2 ^ t := Nat.mul_le_mul_right _ (Nat.le_of_lt h2)
+      rw [← Nat.pow_add, ht] at this
+      exact decide_eq_true (Nat.le_trans this h1)
+    · rw [if_neg hs]
+      have ht : lp + (-((lp : Int) - (lq : Int) - 1)).toNat = lq + 1 := by omega
+      generalize (-((lp : Int) - (lq : Int) - 1)).toNat = t at ht
+      have : 2 ^ lp * 2 ^ t ≤ p * 2 ^ t := Nat.mul_le_mul_right _ h1
+      rw [← Nat.pow_add, ht] at this
+      exact decide_eq_true (Nat.le_trans (Nat.le_of_lt h2) this)
+
+
+/-- every rounding is within a relative error of 2^-53 -/
+theorem roundQ_near (p q : Nat) (hq : 0 < q) : Near (roundQ p q) p q := by
+  unfold roundQ
+  by_cases hp : p = 0
+  · subst hp
+    simp only [true_or, if_true]
+    exact ⟨Nat.one_pos, by simp, by simp⟩
+  · have hq' : ¬ q = 0 := by omega
+    rw [if_neg (by simp [hp, hq'])]
+    exact roundAt_near p q _ hq (expo_ge p q (by omega))
+
+theorem sig_one (P : Nat) : sig P 1 = P := by
+  unfold sig
+  have h1 : P % 1 = 0 := Nat.mod_one P
+  have h2 : P / 1 = P := Nat.div_one P
+  rw [h1, h2]
+  simp
+
+/-- integers below 2^53 convert exactly -/
+theorem ofNat_exact (n : Nat) (hn : n < two53) :
+    (ofNat n).num = n * (ofNat n).den ∧ 0 < (ofNat n).den := by
+  unfold ofNat roundQ
+  by_cases h0 : n = 0
+  · subst h0; simp
+  · rw [if_neg (by simp [h0])]
+    have hl1 : (1 : Nat).log2 = 0 := by decide
+    have hle : 2 ^ n.log2 ≤ n := Nat.log2_self_le h0
+    have hlt : n.log2 < 53 := (Nat.log2_lt h0).2 (by unfold two53 at hn; omega)
+    have hex : expo n 1 = (n.log2 : Int) := by
+      unfold expo
+      simp only [hl1]
+      have : geExp n 1 ((n.log2 : Int) - ((0 : Nat) : Int)) = true := by
+        unfold geExp
+        have : (n.log2 : Int) - ((0 : Nat) : Int) ≥ 0 := by omega
+        rw [if_pos this]
+        have e : ((n.log2 : Int) - ((0 : Nat) : Int)).toNat = n.log2 := by omega
+        rw [e, Nat.one_mul]
+        exact decide_eq_true hle
+      rw [if_pos this]; omega
+    rw [hex, roundAt_up n 1 _ (by omega), sig_one]
+    exact ⟨rfl, pow_pos' _⟩
+
+
+theorem frac_trans {a b c d e f : Nat} (hd : 0 < d) (h1 : a * d ≤ c * b) (h2 : c * f ≤ e * d) :
+    a * f ≤ e * b := by
+  have h3 : a * d * f ≤ c * b * f := Nat.mul_le_mul_right f h1
+  have h4 : c * f * b ≤ e * d * b := Nat.mul_le_mul_right b h2
+  have h5 : (a * f) * d ≤ (e * b) * d := by grind
+  exact Nat.le_of_mul_le_mul_right h5 hd
+
+/-- a common factor of numerator and denominator is irrelevant -/
+theorem Near.cancel {r : F} {p q c : Nat} (hc : 0 < c) (h : Near r (p * c) (q * c)) : Near r p q := by
+  refine ⟨h.den_pos, ?_, ?_⟩
+  · have := h.upper
+    have h' : (two53 * (r.num * q)) * c ≤ ((two53 + 1) * (p * r.den)) * c := by grind
+    exact Nat.le_of_mul_le_mul_right h' hc
+  · have := h.lower
+    have h' : ((two53 - 1) * (p * r.den)) * c ≤ (two53 * (r.num * q)) * c := by grind
+    exact Nat.le_of_mul_le_mul_right h' hc
+
+/-- `nsec / 1e9` in floating point -/
+theorem div_near (n N : Nat) (hn : n < two53) (hN : N < two53) (hN0 : 0 < N) :
+    Near (div (ofNat n) (ofNat N)) n N := by
+  obtain ⟨ha, hap⟩ := ofNat_exact n hn
+  obtain ⟨hb, hbp⟩ := ofNat_exact N hN
+  unfold div
+  have hq : 0 < (ofNat n).den * (ofNat N).num := by
+    rw [hb]; exact Nat.mul_pos hap (Nat.mul_pos hN0 hbp)
+  have h := roundQ_near ((ofNat n).num * (ofNat N).den) ((ofNat n).den * (ofNat N).num) hq
+  rw [ha, hb] at h ⊢
+  have e1 : n * (ofNat n).den * (ofNat N).den = n * ((ofNat n).den * (ofNat N).den) := by grind
+  have e2 : (ofNat n).den * (N * (ofNat N).den) = N * ((ofNat n).den * (ofNat N).den) := by grind
+  rw [e1, e2] at h ⊢
+  exact Near.cancel (Nat.mul_pos hap hbp) h
+
+
+/-- exact integer + float -/
+theorem add_near (a b : F) (s : Nat) (ha : a.num = s * a.den) (hap : 0 < a.den) (hbp : 0 < b.den) :
+    Near (add a b) (s * b.den + b.num) b.den := by
+  unfold add
+  have h := roundQ_near (a.num * b.den + b.num * a.den) (a.den * b.den) (Nat.mul_pos hap hbp)
+  rw [ha] at h ⊢
+  have e1 : s * a.den * b.den + b.num * a.den = (s * b.den + b.num) * a.den := by grind
+  have e2 : a.den * b.den = b.den * a.den := Nat.mul_comm _ _
+  rw [e1, e2] at h ⊢
+  exact Near.cancel hap h
+
+/-- float × exact integer -/
+theorem mul_near (a b : F) (t : Nat) (hb : b.num = t * b.den) (hap : 0 < a.den) (hbp : 0 < b.den) :
+    Near (mul a b) (a.num * t) a.den := by
+  unfold mul
+  have h := roundQ_near (a.num * b.num) (a.den * b.den) (Nat.mul_pos hap hbp)
+  rw [hb] at h ⊢
+  have e1 : a.num * (t * b.den) = (a.num * t) * b.den := by grind
+  rw [e1] at h ⊢
+  exact Near.cancel hbp h
+
+
+theorem chain_upper (T N sec nsec d rate bn bd sn sd pn pd e : Nat)
+    (hbd : 0 < bd) (hsd : 0 < sd) (hpd : 0 < pd) (hT : 0 < T)
+    (hd : d = N * sec + nsec)
+    (U3 : T * (bn * N) ≤ (T + 1) * (nsec * bd))
+    (U2 : T * (sn * bd) ≤ (T + 1) * ((sec * bd + bn) * sd))
+    (U1 : T * (pn * sd) ≤ (T + 1) * (sn * rate * pd))
+    (he : e * pd ≤ pn) :
+    e * (T * T * T * N) ≤ (T + 1) * (T + 1) * (T + 1) * (d * rate) := by
+  have h3 : (sec * bd + bn) * (T * N) ≤ ((T + 1) * d) * bd := by subst hd; grind
+  have h2 : sn * (T * T * N) ≤ ((T + 1) * (T + 1) * d) * sd := by
+    apply frac_trans (c := (T + 1) * (sec * bd + bn)) (d := T * bd) (Nat.mul_pos hT hbd)
+    · grind
+    · have := Nat.mul_le_mul_left ((T + 1) * T) h3
+      grind
+  have h1 : pn * (T * T * T * N) ≤ ((T + 1) * (T + 1) * (T + 1) * (d * rate)) * pd := by
+    apply frac_trans (c := (T + 1) * sn * rate) (d := T * sd) (Nat.mul_pos hT hsd)
+    · grind
+    · have := Nat.mul_le_mul_left ((T + 1) * rate * T) h2
+      grind
+  have h0 : e * pd * (T * T * T * N) ≤ pn * (T * T * T * N) := Nat.mul_le_mul_right _ he
+  have h : (e * (T * T * T * N)) * pd ≤ ((T + 1) * (T + 1) * (T + 1) * (d * rate)) * pd := by grind
+  exact Nat.le_of_mul_le_mul_right h hpd
+
+
+theorem chain_lower (T L N sec nsec d rate bn bd sn sd pn pd e : Nat)
+    (hbd : 0 < bd) (hsd : 0 < sd) (hT : 0 < T) (hL : L ≤ T) (hN : 0 < N)
+    (hd : d = N * sec + nsec)
+    (L3 : L * (nsec * bd) ≤ T * (bn * N))
+    (L2 : L * ((sec * bd + bn) * sd) ≤ T * (sn * bd))
+    (L1 : L * (sn * rate * pd) ≤ T * (pn * sd))
+    (he : pn < (e + 1) * pd) :
+    L * L * L * (d * rate) < (e + 1) * (T * T * T * N) := by
+  have h3 : (L * d) * bd ≤ (sec * bd + bn) * (T * N) := by
+    subst hd
+    have : L * (N * sec * bd) ≤ T * (N * sec * bd) := Nat.mul_le_mul_right _ hL
+    grind
+  have h2 : (L * L * d) * sd ≤ sn * (T * T * N) := by
+    apply frac_trans (c := L * (sec * bd + bn)) (d := T * bd) (Nat.mul_pos hT hbd)
+    · have := Nat.mul_le_mul_left (L * T) h3
+      grind
+    · grind
+  have h1 : (L * L * L * (d * rate)) * pd ≤ pn * (T * T * T * N) := by
+    apply frac_trans (c := L * sn * rate) (d := T * sd) (Nat.mul_pos hT hsd)
+    · have := Nat.mul_le_mul_left (L * rate * T) h2
+      grind
+    · grind
+  have hpos : 0 < T * T * T * N := Nat.mul_pos (Nat.mul_pos (Nat.mul_pos hT hT) hT) hN
+  have h0 : pn * (T * T * T * N) < (e + 1) * pd * (T * T * T * N) := Nat.mul_lt_mul_of_pos_right he hpos
+  have h : (L * L * L * (d * rate)) * pd < ((e + 1) * (T * T * T * N)) * pd := by grind
+  exact Nat.lt_of_mul_lt_mul_right h
+
+
+theorem final_upper (T3 K C N e X rate : Nat) (hT3 : 0 < T3) (hC : C = T3 + K)
+    (hu : e * (T3 * N) ≤ C * X) (hx : K * X ≤ T3 * rate) : e * N ≤ X + rate := by
+  subst hC
+  have h : T3 * (e * N) ≤ T3 * (X + rate) := by grind
+  exact Nat.le_of_mul_le_mul_left h hT3
+
+theorem final_lower (T3 K K' L3 N e X rate : Nat) (hL : T3 ≤ L3 + K') (hK : K' ≤ K)
+    (hl : L3 * X < (e + 1) * (T3 * N)) (hx : K * X ≤ T3 * rate) : X < (e + 1) * N + rate := by
+  have h1 : T3 * X ≤ (L3 + K') * X := Nat.mul_le_mul_right X hL
+  have h2 : K' * X ≤ K * X := Nat.mul_le_mul_right X hK
+  have h : T3 * X < T3 * ((e + 1) * N + rate) := by grind
+  exact Nat.lt_of_mul_lt_mul_left h
+
+/-- **the float product of `Sender.report` is within one tick of the exact tick count.**
+For an elapsed time `d ≤ 2^51 ns` (26 days) and a clock rate below 2^53, `e = ticks d rate`
+(= `int64(d.Seconds()*float64(rate))` as computed by the binary64 model) satisfies
+
+    e·10^9 ≤ d·rate + rate      and      d·rate < (e + 1)·10^9 + rate
+
+i.e. `e` is `⌊d·rate/10^9⌋` up to a float error worth less than 1 ns of time. -/
+theorem ticks_bounds (d rate : Nat) (hd : d ≤ 2251799813685248) (hr : rate < two53) :
+    ticks d rate * 1000000000 ≤ d * rate + rate ∧
+    d * rate < (ticks d rate + 1) * 1000000000 + rate := by
+  have hx : 243388915243820072108964779655169 * d ≤ 730750818665451459101842416358141509827966271488 := by omega
+  have hsec : d / 1000000000 < two53 := by unfold two53; omega
+  have hns : d % 1000000000 < two53 := by unfold two53; omega
+  have hN : (1000000000 : Nat) < two53 := by unfold two53; omega
+  obtain ⟨hA, hAp⟩ := ofNat_exact (d / 1000000000) hsec
+  obtain ⟨hR, hRp⟩ := ofNat_exact rate hr
+  have hB := div_near (d % 1000000000) 1000000000 hns hN (by decide)
+  have hS := add_near (ofNat (d / 1000000000)) (div (ofNat (d % 1000000000)) (ofNat 1000000000))
+    (d / 1000000000) hA hAp hB.den_pos
+  have hP := mul_near (seconds d) (ofNat rate) rate hR hS.den_pos hRp
+  have hdm : d = 1000000000 * (d / 1000000000) + d % 1000000000 := (Nat.div_add_mod d 1000000000).symm
+  unfold ticks trunc
+  have hseconds : seconds d = add (ofNat (d / 1000000000)) (div (ofNat (d % 1000000000)) (ofNat 1000000000)) := rfl
+  rw [← hseconds] at hS
+  generalize div (ofNat (d % 1000000000)) (ofNat 1000000000) = B at hB hS
+  generalize seconds d = S at hS hP
+  generalize mul S (ofNat rate) = P at hP
+  generalize d / 1000000000 = sec at hdm hS
+  generalize d % 1000000000 = nsec at hdm hB
+  have hT : 0 < two53 := by decide
+  have he1 : P.num / P.den * P.den ≤ P.num := Nat.div_mul_le_self _ _
+  have he2 : P.num < (P.num / P.den + 1) * P.den := by
+    have := Nat.lt_div_mul_add (a := P.num) hP.den_pos
+    rw [Nat.add_mul, Nat.one_mul]; omega
+  have hu := chain_upper two53 1000000000 sec nsec d rate B.num B.den S.num S.den P.num P.den
+    (P.num / P.den) hB.den_pos hS.den_pos hP.den_pos hT hdm hB.upper hS.upper hP.upper he1
+  have hl := chain_lower two53 (two53 - 1) 1000000000 sec nsec d rate B.num B.den S.num S.den P.num P.den
+    (P.num / P.den) hB.den_pos hS.den_pos hT (Nat.sub_le _ _) (by decide) hdm hB.lower hS.lower hP.lower he2
+  generalize P.num / P.den = e at hu hl
+  -- `d ≤ 2^51` turns the cubic factors into `+ rate`
+  have hK : 3 * two53 * two53 + 3 * two53 + 1 = 243388915243820072108964779655169 := by unfold two53; rfl
+  have hT3 : two53 * two53 * two53 = 730750818665451459101842416358141509827966271488 := by unfold two53; rfl
+  have hx' : (3 * two53 * two53 + 3 * two53 + 1) * (d * rate) ≤ two53 * two53 * two53 * rate := by
+    rw [hK, hT3, ← Nat.mul_assoc]
+    exact Nat.mul_le_mul_right rate hx
+  constructor
+  · exact final_upper (two53 * two53 * two53) (3 * two53 * two53 + 3 * two53 + 1)
+      ((two53 + 1) * (two53 + 1) * (two53 + 1)) 1000000000 e (d * rate) rate
+      (Nat.mul_pos (Nat.mul_pos hT hT) hT) (by grind) hu hx'
+  · exact final_lower (two53 * two53 * two53) (3 * two53 * two53 + 3 * two53 + 1) (3 * two53 * two53)
+      ((two53 - 1) * (two53 - 1) * (two53 - 1)) 1000000000 e (d * rate) rate
+      (by unfold two53; exact Nat.le_of_ble_eq_true rfl) (by rw [Nat.add_assoc]; exact Nat.le_add_right _ _) hl hx'
+
+
 end Rtsp.F64
